@@ -305,6 +305,7 @@ func C02(c *vk.Ctx) {
 			}
 			for _, v := range []string{"v1", "v2"} { // v1 strict, v2 lenient
 				verdict, errText := "accept", ""
+				before := fmt.Sprint(w.hitsOf("cA"))
 				func() {
 					defer func() {
 						if p := recover(); p != nil {
@@ -320,6 +321,11 @@ func C02(c *vk.Ctx) {
 				}()
 				c.Eval(fmt.Sprintf("issuer-not-at-hand|%s|%d|%s", first, shape, v))
 				walks++
+				if fmt.Sprint(w.hitsOf("cA")) != before {
+					// a responder WAS asked: in this world the issuer certificate is at hand after all (it is among the configured trusted
+					// responder certificates, where issuer candidates are looked for as well) - not a case of this experiment
+					continue
+				}
 				rep := map[string]any{"responder_would_say": first, "chain": []string{"leaf only", "leaf + unrelated CA"}[shape], "strict": v == "v1", "verdict": verdict, "err": errText}
 				switch {
 				case v == "v1" && verdict == "accept":
